@@ -237,53 +237,57 @@ theorem C13_separator (pal : Nat → Pal) (sep : Bytes) (ls : Lasts) (evs : List
 
 /-! ### alignment (`-w`) -/
 
-/-- names whose chars are all one column wide (ASCII): every padded name fills exactly the
-common width, so the separators line up -/
-theorem C13_align (names : List Name) (h : ∀ n ∈ names, ∀ c ∈ n, c = 1) :
+theorem align_le_fold (ns : List Name) (w : Nat) (n : Name) (hn : n ∈ ns) :
+    n.cols ≤ ns.foldl (fun w n => max w n.cols) w := by
+  induction ns generalizing w with
+  | nil => simp at hn
+  | cons a r ih =>
+    have mono : ∀ (xs : List Name) (w : Nat), w ≤ xs.foldl (fun w n => max w n.cols) w := by
+      intro xs
+      induction xs with
+      | nil => intro w; exact Nat.le_refl _
+      | cons b s ihs => intro w; exact Nat.le_trans (Nat.le_max_left _ _) (ihs _)
+    rcases List.mem_cons.mp hn with h | h
+    · subst h; exact Nat.le_trans (Nat.le_max_right _ _) (mono r _)
+    · exact ih _ h
+
+theorem replicate_one_sum (k : Nat) : (List.replicate k 1).sum = k := by
+  induction k with
+  | zero => rfl
+  | succ k ih => simp [List.replicate_succ, ih]; omega
+
+/-- **C13_align** — `-w`: every printed name, padded as the code pads it, fills exactly the common width
+(the widest printed name, in display columns), so the separators line up — for arbitrary names (wide
+characters count two columns). Unfolds the generated `ALIGN_PADS_BY_COLUMNS`. -/
+theorem C13_align_full_holds (names : List Name) :
     ∀ n ∈ names, (padName n (alignWidth names)).cols = alignWidth names := by
-  have cols_len : ∀ n : Name, (∀ c ∈ n, c = 1) → n.cols = n.length := by
-    intro n hn
-    induction n with
-    | nil => rfl
-    | cons c r ih =>
-      have hc := hn c (by simp)
-      have := ih (fun x hx => hn x (by simp [hx]))
-      simp [Name.cols] at *; omega
-  have le_fold : ∀ (ns : List Name) (w : Nat) (n : Name), n ∈ ns → n.cols ≤ ns.foldl (fun w n => max w n.cols) w := by
-    intro ns
-    induction ns with
-    | nil => intro w n hn; simp at hn
-    | cons a r ih =>
-      intro w n hn
-      have mono : ∀ (xs : List Name) (w : Nat), w ≤ xs.foldl (fun w n => max w n.cols) w := by
-        intro xs
-        induction xs with
-        | nil => intro w; exact Nat.le_refl _
-        | cons b s ihs => intro w; exact Nat.le_trans (Nat.le_max_left _ _) (ihs _)
-      rcases List.mem_cons.mp hn with h | h
-      · subst h; exact Nat.le_trans (Nat.le_max_right _ _) (mono r _)
-      · exact ih _ n h
   intro n hn
-  have hle := le_fold names 0 n hn
-  have hcl := cols_len n (h n hn)
-  have hrep : ∀ k : Nat, (List.replicate k 1).sum = k := by
-    intro k; induction k with
-    | zero => rfl
-    | succ k ih => simp [List.replicate_succ, ih]; omega
+  have hle := align_le_fold names 0 n hn
   unfold alignWidth at *
-  simp only [padName, Name.cols, List.sum_append, hrep] at *
+  simp only [padName, padNameWith, padMeasure, S4V.Gen.Print.ALIGN_PADS_BY_COLUMNS, Name.cols, List.sum_append,
+    replicate_one_sum, if_true] at *
   omega
 
-/-- the same for arbitrary names (wide characters count two columns) -/
-def C13_align_full : Prop :=
-  ∀ names : List Name, ∀ n ∈ names, (padName n (alignWidth names)).cols = alignWidth names
+/-- names whose chars are all one column wide (ASCII) -/
+theorem C13_align (names : List Name) (_h : ∀ n ∈ names, ∀ c ∈ n, c = 1) :
+    ∀ n ∈ names, (padName n (alignWidth names)).cols = alignWidth names :=
+  C13_align_full_holds names
 
-/-- … is false: the width is measured in display columns but `{:<width}` pads by `char` count.
+example : (padName [2, 2, 2] (alignWidth [[2, 2, 2], [1, 1, 1, 1, 1]])).cols = 6 := by decide
+
+/-- the statement for the padding as it was before the repair (pad by `char` count) -/
+def C13_align_charcount : Prop :=
+  ∀ names : List Name, ∀ n ∈ names, (padNameWith false n (alignWidth names)).cols = alignWidth names
+
+/-- … is false (was F9): the width is measured in display columns but `{:<width}` pads by `char` count.
 Three double-width chars beside a 5-column ASCII name: width 6, 3 chars → 3 spaces → 9 columns -/
-theorem C13_align_full_false : ¬ C13_align_full := by
+theorem char_count_padding_misaligns : ¬ C13_align_charcount := by
   intro h
   have := h [[2, 2, 2], [1, 1, 1, 1, 1]] [2, 2, 2] (by simp)
   revert this; decide
+
+/-- the prepend separator is literal text in the datetime field (F17 repaired): generated flag -/
+theorem C13_prepend_separator_literal : S4V.Gen.Print.PREPEND_SEPARATOR_LITERAL = true := by decide
 
 /-- the file-name field is the name, the padding and the prepend separator, nothing else -/
 theorem C13_fileField (name : Bytes) (nchars width : Nat) (psep : Bytes) :
